@@ -40,7 +40,7 @@ NAME_TOK = [t for t in TOK if ';' not in t]
 
 @st.composite
 def valid_series(draw):
-  name = draw(text_from(NAME_TOK))
+  name = draw(st.one_of(text_from(NAME_TOK), text_from(NAME_TOK), text_from(NAME_TOK), st.sampled_from(['~', '~~', '~a', '~~x.y'])))
   keys = draw(st.lists(st.one_of(text_from(KEY_TOK, 1, 2), text_from(KEY_TOK, 1, 2), st.just('name')), unique=True, max_size=4))
   tags = []
   for k in keys:
@@ -131,13 +131,19 @@ def through_processors(b, x):
   """The names under which the write and relay processors pass the datapoint on."""
   env.reset(CACHE_WRITE_STRATEGY='sorted', TAG_RELAY_NORMALIZED=True)
   proc = env.need(b.cache, 'CacheFeedingProcessor')()
-  proc.process(x, (1500000000.0, 1.0))
+  try:
+    proc.process(x, (1500000000.0, 1.0))
+  except Exception as e:  # noqa: the datapoint is gone; reported as the name it was stored under
+    return ['<write processor raised %r>' % (e,)], []
   cache = b.cache.MetricCache()
   stored = list(dict.keys(cache))
   mgr = FakeManager()
   b.state.client_manager = mgr
   rp = env.need(b.client, 'RelayProcessor')()
-  rp.process(x, (1500000000.0, 1.0))
+  try:
+    rp.process(x, (1500000000.0, 1.0))
+  except Exception as e:  # noqa
+    return stored, ['<relay processor raised %r>' % (e,)]
   return stored, [m for m, _ in mgr.sent]
 
 
@@ -170,8 +176,13 @@ def execute(ctx, case):
     # a name of only ~ cannot be a tag value: the parser must reject every rendering
     if any(ok for n, ok in results.values()):
       ctx.fail('C18:invalid-name-accepted', 'metric name %r accepted' % name, case)
-    else:
-      ctx.note(case, nontrivial=False, classes=['tilde-only name'])
+      return
+    raw = next(iter(results))
+    stored, relayed = through_processors(b, raw)
+    if stored != [raw] or relayed != [raw]:
+      ctx.fail('C18:rejected-name-altered', 'rejected name %r was stored as %r and relayed as %r' % (raw, stored, relayed), case, 'as-received')
+      return
+    ctx.note(case, nontrivial=False, classes=['tilde-only name'])
     return
   if len(forms) != 1:
     ex = sorted(results.items())[:4]
